@@ -1,5 +1,25 @@
-(* C10 — theorems are added as they close; model Solr/Edismax.v, spec Solr/Edismax_Spec.v *)
-From Coq Require Import QArith.
-From SA Require Import Base.Prelude Solr.Edismax Solr.Edismax_Spec.
-Example C10_dismax_example : dismax (1 # 2) [3; 1; 2] == 3 + (1 # 2) * 3.
-Proof. vm_compute. reflexivity. Qed.
+(* C10 — edismax phrase boosts only re-rank matches, adding each phrase score once.
+   Statement-only file.  The model runs the pf / pf2 / pf3 phases on the VIEW of rows with a positive
+   query-field score and scatters them back; the spec adds WHOLE-FRAME phrase scores at those rows. *)
+From Coq Require Import ZArith QArith List.
+From SA Require Import Base.Prelude Index.Index View.View Solr.MM Solr.Edismax Solr.Edismax_Spec Solr.Edismax_Proofs.
+Import ListNotations.
+
+(* view_commutes_all is property C06 for a mask key: scoring the view of matching rows = gathering the
+   whole-frame scores at those rows (document frequencies, avg length, corpus size inherited). PARTIAL:
+   it is an explicit premise here; C06's commutation theorem is proved for tf / positions / lengths / df. *)
+Theorem C10_phrase_boosts_partial : forall idf n q, wf_query idf n q ->
+  (is_term_centric (eq_fields q) = true -> qf_calls_ok idf q) -> select_ok n q ->
+  view_commutes_all idf n q ->
+  api_veq (edismax idf n q) (edismax_spec idf n q).
+Proof. exact C10_phrase_boosts. Qed.
+Print Assumptions C10_phrase_boosts_partial.
+
+(* each adjacent pair / triple exactly once; queries shorter than the shingle size add nothing *)
+Theorem C10_shingles2_each_once : forall ts,
+  shingles2 ts = map (fun i => [nth i ts 0%N; nth (S i) ts 0%N]) (seq 0 (length ts - 1)).
+Proof. exact shingles2_spec. Qed.
+Print Assumptions C10_shingles2_each_once.
+Theorem C10_shingles3_each_once : forall ts,
+  shingles3 ts = map (fun i => [nth i ts 0%N; nth (S i) ts 0%N; nth (S (S i)) ts 0%N]) (seq 0 (length ts - 2)).
+Proof. exact shingles3_spec. Qed.
